@@ -398,9 +398,11 @@ Proof.
   - pose proof (copy_path_m_sf muri_empty src s) as V2. cbv zeta in V2.
     destruct (copy_path_m muri_empty src s) as [[[|] d2] s2]; cbn [negb fst snd] in *; cbv beta iota;
       [|apply (from2_same _ _ muri_empty); [tauto|tauto|apply from2_empty]].
-    pose proof (fix_ambiguity_m_sf (set_m_abs true d2) s2) as V4. cbv zeta in V4.
-    destruct (fix_ambiguity_m (set_m_abs true d2) s2) as [[[|] d4] s4]; cbn [negb fst snd] in *; cbv beta iota;
-      apply (from2_same _ _ muri_empty); msimpl; try apply from2_empty; destruct V2, V4; msimpl; congruence.
+    pose proof (fet_vals (set_m_abs true d2) s2) as V3. cbv zeta in V3.
+    destruct (fix_empty_trail_m (set_m_abs true d2) s2) as [d3 s3]; cbn [fst snd] in *.
+    pose proof (fix_ambiguity_m_sf d3 s3) as V4. cbv zeta in V4.
+    destruct (fix_ambiguity_m d3 s3) as [[[|] d4] s4]; cbn [negb fst snd] in *; cbv beta iota;
+      apply (from2_same _ _ muri_empty); msimpl; try apply from2_empty; destruct V2, V3, V4; msimpl; congruence.
   - destruct (skip_common (pathSegs (erase src)) (pathSegs (erase base))) as [s' b'].
     destruct (append_segs [] _ s) as [[[|] segs] s1]; cbn [fst snd]; apply (from2_same _ _ muri_empty); msimpl; try reflexivity; apply from2_empty.
 Qed.
